@@ -133,8 +133,46 @@ FACTORIES = {"scipy.sparse.linalg.factorized"}
 CONVERSIONS = ("tocsc", "tocsr", "tocoo", "tolil", "todia", "asformat", "copy")
 
 
+def banded_as_diags(lu, ab):
+    """The matrix that LAPACK banded storage describes, as the diags(...) it is:  ab[u + i - j, j] == A[i, j].
+    Diagonal d (-l <= d <= u) is row u - d of `ab`; its element k is A[k, k + d] = ab[u - d, k + d] for d >= 0 and
+    A[k - d, k] = ab[u - d, k] for d < 0.  Rows of a zeros(...) array that were never written are zero diagonals."""
+    from ..values import Arr2
+
+    if not (isinstance(lu, TupV) and len(lu.items) == 2 and all(isinstance(x, Num) and nf.as_int(x.nf) is not None for x in lu.items)):
+        return None
+    l, u = (nf.as_int(x.nf) for x in lu.items)
+    if not isinstance(ab, Arr2) or len(ab.shape) != 2 or nf.as_int(ab.shape[0]) != l + u + 1 or ab.cols or l < 0 or u < 0:
+        return None
+    n = ab.shape[1]
+    diagonals, offsets = [], []
+    for d in range(-l, u + 1):
+        row = ab.rows.get(nf.key(nf.const(u - d)))
+        if row is None:
+            if ab.creator not in ("zeros",):
+                return None
+            row = Vec({}, n, {})
+        ln = nf.sub(n, nf.const(abs(d)))
+        sh = max(d, 0)
+        v = Vec(nf.subst_sym(row.gen, {"@J": nf.add(nf.sym("@J"), nf.const(sh))}), ln, {})
+        for _k, (pos, x) in row.over.items():
+            np_ = nf.sub(pos, nf.const(sh))
+            ip, il = nf.as_int(np_), nf.as_int(nf.sub(np_, ln))
+            if (ip is not None and ip < 0) or (il is not None and il >= 0):
+                continue  # the unused corner of the banded storage
+            if ip is None and il is None:
+                return None
+            v.over[nf.key(np_)] = (np_, x)
+        diagonals.append(v)
+        offsets.append(Num(nf.const(d)))
+    return ExtObj("scipy.sparse.diags", {"diagonals": TupV(diagonals), "offsets": TupV(offsets)}, ab.node)
+
+
 def solver_inputs(ev):
     a = ev.data.get("args_solve") or ev.data["args"]
+    if ev.data.get("callee") == "scipy.linalg.solve_banded":
+        A = banded_as_diags(a.get("l_and_u") or a.get("0"), a.get("ab") or a.get("1"))
+        return A, a.get("b") or a.get("2")
     A = a.get("A") or a.get("0")
     b = a.get("b") or a.get("1")
     # a format conversion of the assembled matrix is still that matrix
